@@ -11,12 +11,16 @@ from ..report import Check
 from ..terms import OutsideFragment, expr_term
 from ..wireshape import ShapeError
 from .codecs import CodecFacts, codec_facts
+from .purity import codec_state, encode_stream
 
 RULES = {
     "R07.1": "codec duality: the wire-shape terms of encode and decode are equal up to direction",
     "R07.2": "a count prefix measures what is written / iterated next",
     "R07.3": "table consistency: integer and float parameter tables, codec table keys, "
              "_encode_tree/_decode_tree symmetric lookup, get_by_uuid forwarded by every decoder",
+    "R07.5": "no hidden state on the codec path (module/class/instance state other than the codec "
+             "table); Serialization.encode writes straight into the caller's stream",
+    "R07.6": "type-name bracket matching tracks nesting depth (a type tree is needed to encode at all)",
     "R07.4": "UUIDCodec.decode returns the looked-up node iff the lookup result is not None, "
              "else the UUID; encode accepts both",
 }
@@ -75,6 +79,10 @@ def run(chk: Check) -> None:
     _param_tables(chk, cf)
     _tree_dispatch(chk, cf)
     _uuid_resolution(chk, cf)
+    codec_state(chk, "R07.5")
+    encode_stream(chk, "R07.5")
+    from .c15 import bracket_matching
+    bracket_matching(chk, "R07.6")
 
 
 def _s(ev) -> str:
